@@ -48,7 +48,9 @@ def explore (P : Program) (eqv : Instr → Instr → Bool) (mainR : Routine)
       | _, _ => .error s!"callsub target {rl} not found"
   go fuel (harvestCalls mainR.G P V0) [] [(mainR, 0, V0)]
 
-def validateProg (version : Nat) (fp : Bool) (p : Prog) (P : Program) : Except String ValidatedProg := do
+/-- untrusted part: discover slots and labels, regenerate the routine models, search the
+    relations; returns the certificate to be checked and the statistics -/
+def buildCert (version : Nat) (fp : Bool) (p : Prog) (P : Program) : Except String (ProgCert × ValidatedProg) := do
   -- pass 1 (untrusted discovery): loose matching, placeholder spill slots
   let placeholder (sd : SubDef) : List Nat := (List.range (spillKeys fp sd).length).map (· + 100000)
   let main0 ← genMainR version true p
@@ -69,11 +71,30 @@ def validateProg (version : Nat) (fp : Bool) (p : Prog) (P : Program) : Except S
     | some sd => genSub version fp false p' sd (sortNat (spillKeys fp sd))
     | none => .error "unknown subroutine"
   let eqv := strictEqR labels
-  let (rs1, _) ← (explore P eqv main1 mk1 (P.size + 64)).mapError ("strict: " ++ ·)
-  let ok := rs1.all (fun (r, pc0, V) => closedAt eqv r.G r.start P pc0 V)
-  if !ok then throw "certificate rejected by closedAt"
+  -- `rs1` = explored routines, newest first, main last; `seen1` = their (model, real) labels, same order
+  let (rs1, seen1) ← (explore P eqv main1 mk1 (P.size + 64)).mapError ("strict: " ++ ·)
+  let Vm ← match rs1.getLast? with
+    | some (_, _, V) => pure V
+    | none => throw "no main routine"
+  let subs : List RoutineCert := (seen1.zip rs1).map (fun ((ml, rl), (r, pc0, V)) =>
+    { ml := ml, rl := rl, G := r.G, start := r.start, p0 := pc0, V := V })
+  let cert : ProgCert := { Gm := main1.G, sm := main1.start, Vm := Vm, labels := seen1, subs := subs }
   let spilled := rs1.foldl (fun n (r, _, _) => n + (r.G.foldl (fun m b =>
     m + (if b.ops.any (fun i => match i with | .callsub _ => true | _ => false) && b.ops.length > 1 then 1 else 0)) 0)) 0
-  pure { routines := rs1.length, relSize := rs1.foldl (fun n (_, _, V) => n + V.length) 0, bindings := bs.length, spilledCalls := spilled }
+  pure (cert, { routines := rs1.length, relSize := rs1.foldl (fun n (_, _, V) => n + V.length) 0, bindings := bs.length, spilledCalls := spilled })
+
+/-- build the certificate (untrusted) and accept it iff `checkCert` does; by
+    `simR_sound_forward/backward` (Proofs/SimR.lean) an accepted certificate means that the
+    multi-routine graph machine on `cert.prog` and the AVM on `P` have the same terminating
+    outcomes -/
+def validateProgCert (version : Nat) (fp : Bool) (p : Prog) (P : Program) : Except String (ProgCert × ValidatedProg) :=
+  match buildCert version fp p P with
+  | .error e => .error e
+  | .ok (c, v) => if checkCert P c then .ok (c, v) else .error "certificate rejected by checkCert"
+
+def validateProg (version : Nat) (fp : Bool) (p : Prog) (P : Program) : Except String ValidatedProg :=
+  match validateProgCert version fp p P with
+  | .ok (_, v) => .ok v
+  | .error e => .error e
 
 end PyTealV.Check
